@@ -504,6 +504,7 @@ func c07Exec(ops []string, prop string) vResult {
 				if st.recvBuf.Len() != 0 {
 					c.setFail("pool-handout-dirty", fmt.Sprintf("GetStream returned stream %d with %d unread bytes of an earlier use", id, st.recvBuf.Len()))
 				}
+
 				if c.heldP[id] {
 					c.setFail("pool-double-handout", fmt.Sprintf("stream %d handed to two callers", id))
 				}
@@ -536,6 +537,10 @@ func c07Exec(ops []string, prop string) vResult {
 				r := "pooled"
 				if c.pool.tail-c.pool.head > before {
 					c.pooled = append(c.pooled, id)
+					// S (C15): a stream is kept for reuse only if it carries nothing of this use (its next user would get it)
+					if unread > 0 || npend > 0 {
+						c.setFail("pool-keeps-dirty-stream", fmt.Sprintf("PutBack kept stream %d in the pool although %d unread byte(s) and %d pending message(s) of this use are still on it", id, unread, npend))
+					}
 				} else {
 					switch {
 					case wasFb:
